@@ -53,6 +53,65 @@ fn c11_depth_guard_inductive_step() {
     core::mem::forget((r, ctx));
 }
 
+/// Model of `Vec::pop` for the harness below: shortens the vector like the real function but leaks the
+/// element instead of returning it (push_frame drops the rejected frame at once; the drop glue of a `Frame`
+/// read back from the heap - boxed loop iterators, closures - is what runs CBMC out of memory, and it has no
+/// influence on the depth accounting under test).
+pub(crate) fn vec_pop_leaking<T, A: core::alloc::Allocator>(v: &mut Vec<T, A>) -> Option<T> {
+    let n = v.len();
+    if n > 0 {
+        unsafe { v.set_len(n - 1) };
+    }
+    None
+}
+
+// @verif props=C11 tier=quick cap=900 group=core fns=Context::{push_frame,pop_frame,depth,incr_depth} stubs=Vec::pop->leaking_model
+/// push_frame - the guard every scoped construct, macro call and include passes through - from an ARBITRARY
+/// accounted depth (outer depth `pre` <= limit, as left behind by includes / macro calls, plus 0..=1 frames
+/// already on the stack): Ok implies depth() == old + 1 <= limit; Err implies the frame was not kept and the
+/// depth is unchanged, and happens exactly when old + 1 > limit.  The frames are concrete (`undefined`
+/// context, no loop state), only the depth accounting is symbolic.
+#[kani::proof]
+#[kani::unwind(4)]
+#[kani::stub(std::hash::RandomState::new, crate::verif_common::random_state_stub)]
+#[kani::stub(alloc::fmt::format, crate::verif_common::format_stub)]
+#[kani::stub(alloc::vec::Vec::pop, vec_pop_leaking)]
+fn c11_push_frame_counts_outer_depth() {
+    let requested: usize = kani::any();
+    let env = leaked_env(requested);
+    let limit = env.recursion_limit();
+    let mut ctx = Context::new(env);
+    let pre: usize = kani::any();
+    kani::assume(pre <= limit);
+    ctx.outer_stack_depth = pre;
+    let one_below: bool = kani::any();
+    if one_below {
+        let r0 = ctx.push_frame(Frame::new(Value::UNDEFINED));
+        if r0.is_err() {
+            assert!(pre + 1 > limit);
+            assert!(ctx.depth() == pre);
+        }
+        core::mem::forget(r0);
+    }
+    let old = ctx.depth();
+    assert!(old <= limit);
+    let r = ctx.push_frame(Frame::new(Value::UNDEFINED));
+    match r {
+        Ok(()) => {
+            assert!(ctx.depth() == old + 1);
+            assert!(ctx.depth() <= limit);
+        }
+        Err(ref e) => {
+            assert!(old + 1 > limit);
+            assert!(ctx.depth() == old);
+            assert!(matches!(e.kind(), ErrorKind::InvalidOperation));
+        }
+    }
+    kani::cover!(r.is_ok() && pre > 0 && one_below);
+    kani::cover!(r.is_err() && pre > 1 && ctx.stack.len() <= 1);
+    core::mem::forget((r, ctx));
+}
+
 // @verif props=C11 tier=quick cap=600 group=core fns=Environment::set_recursion_limit,Context::new,Context::depth
 /// The configured limit can never exceed 500 (the value the native-stack budget was chosen for): for ANY
 /// requested limit and ANY sequence of two set_recursion_limit calls the stored limit is min(last request, 500),
